@@ -29,7 +29,7 @@ CONSTANTS Kind,       \* "subject" | "behavior" | "async"
           MaxCmds,    \* global budget of calls (top level + inside callbacks)
           MaxSubs,    \* at most this many subscribe calls
           MaxBody,    \* calls per callback invocation
-          CbCmds,     \* subset of {"unsub","sub","next","error","completed"} offered inside callbacks
+          CbCmds,     \* subset of {"unsub","sub","next","error","completed","dispose"} offered inside callbacks
           TopCmds     \* subset of {"sub","subnh","unsub","next","error","completed","dispose"} offered at top level
 
 VARIABLES obs,      \* sequence of live subscription ids, in subscription order
@@ -156,10 +156,19 @@ Terminate(k) ==
                     /\ pend' = pend \o Snapshot(k, v)
     /\ UNCHANGED <<disposed, value, hasValue, nsub, gone, ret, subMode, subAt, lenGone, log, stack, nnext, steps>>
 
-Dispose ==
+\* observers that still have a turn coming in a delivery under way (or queued)
+InFlight == {o \in Ids : \/ \E f \in 1..Len(stack) : stack[f].t = "D" /\ \E i \in stack[f].pos..Len(stack[f].items) : stack[f].items[i][1] = o
+                         \/ \E f \in 1..Len(pend) : \E i \in 1..Len(pend[f].items) : pend[f].items[i][1] = o}
+
+\* dispose(): every later emitting / subscribing call raises.  From inside a callback (CbCmds), the statement
+\* does not say whether the members of the snapshot whose turn has not come yet still get the notification
+\* ("unsubscribe all observers"): any subset K of them may be cut off - but whoever is served is served the
+\* notification of the call as it was made (the value captured at the call, not the disposed subject's).
+Dispose == \E K \in SUBSET (InFlight \ gone) :
     /\ CanCall("dispose") /\ Note("dispose", 0, 0)
     /\ disposed' = TRUE /\ obs' = <<>>
-    /\ UNCHANGED <<stopped, term, exc, value, hasValue, nsub, gone, ret, subMode, subAt, lenGone, log, calls,
+    /\ gone' = gone \cup K /\ lenGone' = [o \in Ids |-> IF o \in K THEN Len(log[o]) ELSE lenGone[o]]
+    /\ UNCHANGED <<stopped, term, exc, value, hasValue, nsub, ret, subMode, subAt, log, calls,
                    pend, stack, nnext, nerr, steps>>
 
 (* ---- delivery machinery --------------------------------------------------------------- *)
@@ -234,7 +243,7 @@ Expected(o) ==
 Made == {o \in Ids : subMode[o] \in {"live", "late"}}
 
 (* ---- invariants (property level) ------------------------------------------------------ *)
-TypeOK == /\ nsub \in 0..MaxSubs /\ budget \in 0..MaxCmds /\ gone \subseteq ret /\ ret \subseteq 1..nsub
+TypeOK == /\ nsub \in 0..MaxSubs /\ budget \in 0..MaxCmds /\ gone \subseteq 1..nsub /\ ret \subseteq 1..nsub
           /\ Range(obs) \subseteq (1..nsub) \ gone /\ (stopped => obs = <<>>)
           /\ Len(steps) = Len(top) - (IF open THEN 1 ELSE 0)
 
@@ -292,5 +301,6 @@ Export == (AtTop /\ budget = 0) =>
                                     late |-> Cardinality({o \in Ids : subMode[o] = "late"}),
                                     \* a subscribe on the disposed subject has two accepted outcomes: a single
                                     \* simulated behaviour shows only one of them
-                                    amb |-> (\E i \in 1..Len(res) : res[i].c = "sub" /\ res[i].d)]]))
+                                    \* (likewise a dispose() from inside a callback: who is cut off is open)
+                                    amb |-> (\E i \in 1..Len(res) : (res[i].c = "sub" /\ res[i].d) \/ (res[i].c = "dispose" /\ res[i].n))]]))
 ================================================================================
